@@ -140,7 +140,7 @@ Do(a) ==
        [] a.op = "wok"    -> DoWok(a)
        [] a.op = "wfault" -> DoWfault(a)
        [] a.op = "rok"    -> DoRok(a)
-       [] a.op = "rfault" -> a.k \in {"eof", "err", "timeout", "herr", "dl"} /\ DoRend(a, "rfault")
+       [] a.op = "rfault" -> a.k \in {"eof", "err", "timeout", "herr", "dl", "temp"} /\ DoRend(a, "rfault")
        [] a.op = "panic"  -> DoRend(a, "panic")
        [] OTHER -> FALSE
 
@@ -229,7 +229,7 @@ ActsOf(s) ==
           n \in {k \in 1..2 : Len(c.acc) + k <= MaxBytes}, r \in {"ok", "err"}}
   \cup [op : {"close", "wok", "rok", "panic"}, s : {s}]
   \cup [op : {"wfault"}, s : {s}, n : 0..1]
-  \cup [op : {"rfault"}, s : {s}, k : {"eof", "err", "timeout", "herr", "dl"}]
+  \cup [op : {"rfault"}, s : {s}, k : {"eof", "err", "timeout", "herr", "dl", "temp"}]
 
 Tau == [op |-> "tau"]
 Next ==
